@@ -277,6 +277,10 @@ Definition py_bisect_right (l x:pyval) : res :=
 Definition py_bisect_left (l x:pyval) : res :=
   match l, x with VList a, VInt z | VTuple a, VInt z => match bisect_l a z with Some k => Normal (VInt (Z.of_nat k)) | None => Exc TypeError end | _, _ => Exc TypeError end.
 
+(* s.split(c) for a single separator character: always at least one field *)
+Definition py_split1 (s : pyval) (sep : Z) : res :=
+  match s with VStr a => Normal (VList (map (fun f => VStr f) (split_on sep [] a))) | _ => Exc AttributeError end.
+
 (* ordering comparisons: integers only (strings etc. are outside the translated subset: TypeError in the model means "not modelled") *)
 Definition py_lt (a b:pyval) : res := match a, b with VInt x, VInt y => Normal (VBool (x <? y)) | _, _ => Exc TypeError end.
 Definition py_le (a b:pyval) : res := match a, b with VInt x, VInt y => Normal (VBool (x <=? y)) | _, _ => Exc TypeError end.
